@@ -55,6 +55,8 @@
 #include "nmtools/array/eval/kernel_helper.hpp"
 #include "nmtools/utility/isequal.hpp"
 #include "nmtools/utility/isclose.hpp"
+#include "nmtools/utility/apply_isequal.hpp"
+#include "nmtools/utility/apply_isclose.hpp"
 namespace nm = nmtools; namespace na = nm::array; namespace ix = nm::index; namespace view = nm::view; namespace meta = nm::meta;
 using namespace nmtools::literals;
 using dyn_shape = nmtools_list<size_t>;
@@ -115,6 +117,13 @@ void drive_fill_views(const M<arr_d>& ma, const arr_d& a, const arr_f& af, const
     auto w1 = na::eval(p1); auto w2 = na::eval(p2); auto w3 = na::eval(p3); auto w4 = na::eval(t1); auto w5 = na::eval(t2); auto w6 = na::eval(t3);
     auto w7 = na::eval(e1); auto w8 = na::eval(e2); auto w9 = na::eval(d1); auto w10 = na::eval(d2); auto w11 = na::eval(k1); auto w12 = na::eval(s1);
     (void)w1;(void)w2;(void)w3;(void)w4;(void)w5;(void)w6;(void)w7;(void)w8;(void)w9;(void)w10;(void)w11;(void)w12;
+}
+// the comparison helpers behind the library's own expectations, on optionals (C18: two empty optionals are equal, an empty and a non-empty one differ)
+void drive_apply(const M<arr_id>& ma, const M<arr_id>& mb, const arr_id& a, const M<arr_f>& mx, const M<arr_f>& my, const arr_f& x)
+{
+    auto r1 = nm::utils::apply_isequal(ma, mb); auto r2 = nm::utils::apply_isequal(ma, a); auto r3 = nm::utils::apply_isequal(a, mb);
+    auto s1 = nm::utils::apply_isclose(mx, my); auto s2 = nm::utils::apply_isclose(mx, x); auto s3 = nm::utils::apply_isclose(x, my);
+    (void)r1;(void)r2;(void)r3;(void)s1;(void)s2;(void)s3;
 }
 void drive_kernel(float* out, const size_t* shp, const M<arr_d>& ma, const arr_d& a, na::kernel_size<size_t> t)
 {
